@@ -651,6 +651,9 @@ C16_Nfkc(s, nfkcDelims, out) ==
 \* (the constructor does not validate hosts; the clause speaks of syntactically valid stored hosts)
 ValidStoredHost(h) == \/ (Has(h, COLON) /\ CanonIPv6Host(h) # <<>>) \/ IsIPv4(h)
                       \/ (~Has(h, COLON) /\ AllLegalFrom(Unreserved \cup SubDelims, h, 1))
+\* a stored host the (non-validating) constructor let through must still be refused by with_host()
+C16_SelfHostRejected(S, out) ==
+  (Ok(S.raw_host) /\ V(S.raw_host) # None /\ C16_MustReject(V(S.raw_host)[1])) => IsValueError(out)
 C16_SelfHost(S, out) ==
   (Ok(S.raw_host) /\ V(S.raw_host) # None /\ V(S.raw_host)[1] # <<>> /\ ValidStoredHost(V(S.raw_host)[1])) =>
      (Ok(out) /\ Ok(out.ok.raw_host) /\ V(out.ok.raw_host) = V(S.raw_host))
